@@ -570,7 +570,8 @@ where
                 self.session.on_incoming_end(channel, end)?;
             }
             SessionState::EndSent => {
-                self.wait_for_remote_end(false).await?;
+                let (channel, end) = self.wait_for_remote_end(false).await?;
+                self.session.on_incoming_end(channel, end)?;
             }
             SessionState::EndReceived => {
                 self.session
